@@ -1,7 +1,8 @@
 #!/bin/sh
-# runs every registered check (quick tier by default) on the current tree
+# runs every registered check (quick tier by default) on the current tree; prints the summary line of each check and every
+# line that needs attention (VIOLATION / UNDECIDED / NOTE / SELFTEST)
 cd "$(dirname "$0")/.."
 tier=${1:-quick}
 for p in $(python3 -c "import sys; sys.path.insert(0,'checks'); from props import PROPS; print(' '.join(sorted(PROPS)))"); do
-  python3 checks/run.py $p --tier $tier | tail -1
+  python3 checks/run.py $p --tier $tier | grep -E "^(VIOLATION|UNDECIDED|NOTE|SELFTEST)|^C[0-9][0-9] (quick|thorough):"
 done
